@@ -1043,7 +1043,7 @@ class BitwiseAndCriterion(Criterion):
     def get_sql(self, **kwargs: Any) -> str:
         sql = "({term} & {value})".format(
             term=self.term.get_sql(**kwargs),
-            value=self.value,
+            value=self.value.get_sql(**kwargs) if hasattr(self.value, "get_sql") else self.value,
         )
         return format_alias_sql(sql, self.alias, **kwargs)
 
